@@ -242,6 +242,16 @@ fn misbehave(kind: &str, mut s: TcpStream) -> Option<TcpStream> {
             respond(&mut s, "404 Not Found", "text/plain", b"nope", Some(4));
             None
         }
+        // error pages as proxies and captive portals send them: long, not ASCII, multi-byte characters at every
+        // offset around the sizes a client might cut a log line at (64, 128, 256, 512, 1024 bytes)
+        k if k.starts_with("s503u") => {
+            let shift: usize = k[5..].parse().unwrap_or(0);
+            let mut body = "x".repeat(shift);
+            body.push_str(&"サービスは一時的に利用できません。".repeat(40));
+            body.push_str(&"é".repeat(300));
+            respond(&mut s, "503 Service Unavailable", "text/html; charset=utf-8", body.as_bytes(), Some(body.len()));
+            None
+        }
         "s403" => {
             respond(&mut s, "403 Forbidden", "application/json", b"{\"patch_available\":false}", Some(25));
             None
